@@ -291,6 +291,22 @@ class Repo:
                         self.modules[rel].reindex()
                         self.canonicalised = getattr(self, 'canonicalised', {})
                         self.canonicalised[rel] = cn
+                        # steps that uncover loops / temporaries (S34 any/all, S49 generator fusion, S48 rotation) are followed by one
+                        # more round of the structural pre-passes and of the canonicaliser
+                        if any(st_.startswith(('S34', 'S49', 'S48')) for steps_ in cn.values() for st_ in steps_):
+                            from . import canon as _cn2
+                            for step in (_cn2.fold_unpacked_loop_targets,):
+                                if step(rel, self.modules[rel]):
+                                    self.modules[rel].reindex()
+                            if _cn2.inline_fresh_temps(rel, self.modules[rel], refnames()):
+                                self.modules[rel].reindex()
+                            if os.environ.get('SA_NO_RENAME') != '1' and normalise_local_names(rel, self.modules[rel]):
+                                self.modules[rel].reindex()
+                            cn2 = canonicalise(rel, self.modules[rel])
+                            if cn2:
+                                self.modules[rel].reindex()
+                                for k_, v_ in cn2.items():
+                                    self.canonicalised[rel].setdefault(k_, []).extend(v_)
                     from .canon import renumber
                     renumber(self.modules[rel])
             except SyntaxError as e:
